@@ -4,6 +4,7 @@ import Driver.Sched
 import Driver.Report
 import Driver.Spell
 import Driver.Hidden
+import Driver.Cli
 /-!
 Line-protocol driver: one request per stdin line, one answer per stdout line.
 Unknown or ill-formed requests are answered `bad-op` (never defaulted).
@@ -16,7 +17,8 @@ def handlers : List (List String × (List String → String)) := [
   (whCmds, handleWh),
   (reportCmds, handleReports),
   (spellCmds, handleSpell),
-  (hiddenCmds, handleHidden)
+  (hiddenCmds, handleHidden),
+  (cliCmds, handleCli)
 ]
 
 def dispatch (toks : List String) : String :=
